@@ -160,7 +160,7 @@ def gen_history(rng, maxlen=14):
                 nm = rng.choice(present)          # duplicate
             else:
                 nm = rng.choice(NAMES[:4])
-            lo = shift + rng.randint(0, 6)
+            lo = shift + (rng.randint(-4, 6) if rng.random() < 0.2 else rng.randint(0, 6))      # windows may open before time zero
             if rng.random() < 0.3:
                 hi = INF
             elif rng.random() < 0.12:
